@@ -164,6 +164,17 @@ func runStall(cc *caseCfg, b run.Batch, r *ev.Result) (abort bool) {
 		g := 1 - h
 		x.trace("background round is stuck on server #%d (accepted, silent); a later round is due within %d ticks", h, stallBoundTicks)
 		r.Count("stall_rounds_stuck", 1)
+		if free, leaked, detail := probeLock(x.c); leaked {
+			r.Violationf(lockKey(detail), x.replay(map[string]interface{}{"label": "stall"}), "stall: a background sync round is waiting for server #%d, which accepted the connection and says nothing, and the client mutex cannot be taken: %s", h, detail)
+			x.closed = true
+			x.emissionAfterLeak("stall")
+			doRelease()
+			go x.c.Close()
+			return true
+		} else if free {
+			r.Count("lock_probes_free", 1)
+			r.Count("lock_probes_free_while_a_round_waits_for_a_silent_server", 1)
+		}
 		total0 := x.rogues[h].acceptCount() + x.rogues[g].acceptCount()
 		later := func() bool { return x.rogues[h].acceptCount()+x.rogues[g].acceptCount() > total0 }
 		ok, abort = wait(fmt.Sprintf("a later sync round after one got stuck on the silent server #%d", h), later, tP, stallBoundTicks, "no-later-sync-attempt")
@@ -185,7 +196,7 @@ func runStall(cc *caseCfg, b run.Batch, r *ev.Result) (abort bool) {
 	}
 	free, leaked, detail := probeLock(x.c)
 	if leaked {
-		r.Violationf("client-lock-leaked-after-sync", x.replay(map[string]interface{}{"label": "stall"}), "stall: the client mutex is held although every round is either stuck in a read or finished: %s", detail)
+		r.Violationf(lockKey(detail), x.replay(map[string]interface{}{"label": "stall"}), "stall: the client mutex is held although every round is either stuck in a read or finished: %s", detail)
 		x.closed = true
 		doRelease()
 		go x.c.Close()
